@@ -14,6 +14,7 @@ import Voi.Props.L0.FieldU64_Sub
 import Voi.Props.L0.FieldU64_Neg
 import Voi.Props.L0.FieldU64_Mul121666
 import Voi.Props.L0.FieldU64_Square2
+import Voi.Gen.IR_FieldU64_Add
 import Voi.Props.FL.Bounds
 namespace Voi.Props.FL.Link
 open Voi.IR Voi.Props.L0 Voi.Props.FL.Bounds
@@ -264,6 +265,12 @@ theorem feSub_meets_contract (a0 a1 a2 a3 a4 b0 b1 b2 b3 b4 : Nat)
     convert h using 2
     simp only [IR.get, e]
     ring
+
+/-- `Add` (as regenerated) adds limb by limb in 64-bit words: with the sum of the operands' bounds below 2^64 (what the bound
+replay requires) nothing wraps, the result's limbs are the sums and its value the sum of the values -/
+theorem feAdd_limbwise (a0 a1 a2 a3 a4 b0 b1 b2 b3 b4 : Nat) :
+    Voi.Gen.FieldU64.Add_outs.map (IR.get (run Voi.Gen.FieldU64.Add_prog [a0, a1, a2, a3, a4, b0, b1, b2, b3, b4])) =
+      [(a0 + b0) % 2^64, (a1 + b1) % 2^64, (a2 + b2) % 2^64, (a3 + b3) % 2^64, (a4 + b4) % 2^64] := rfl
 
 /-- the bounds used above are the entries of the contract table -/
 theorem contract_bounds : C64.mulPre = List.replicate 5 (2^54 - 1) ∧ C64.mulPost = List.replicate 5 (2^52 - 1) ∧
